@@ -30,7 +30,7 @@ Proof.
   intros W sc s PK BL CU RR HB.
   pose proof (reach_GI_dec (blc09 sc) (blc09b sc) (blc09b_ok sc) false false b sched W) as G.
   change (run_sched_g false false false) with run_sched in G. fold sc in G. fold s in G.
-  destruct (GI_blocked b _ _ _ t k l G PK BL) as [H [K [o [p' [A [CU' B]]]]]].
+  destruct (GI_blocked b _ _ _ _ _ t k l G PK BL) as [H [K [o [p' [A [CU' B]]]]]].
   rewrite CU in CU'. inversion CU'; subst o p'. cbn [blk_of] in B.
   unfold blc09 in B. rewrite RR in B.
   assert (HH : writer_is (w_raw (b_w s) l') t = true \/ memb t (readers (w_raw (b_w s) l')) = true).
